@@ -9,6 +9,7 @@ require (
 	github.com/quic-go/qpack v0.5.1
 	github.com/quic-go/quic-go v0.48.2
 	golang.org/x/net v0.33.0
+	golang.org/x/text v0.21.0
 )
 
 require (
@@ -19,7 +20,6 @@ require (
 	golang.org/x/crypto v0.31.0 // indirect
 	golang.org/x/exp v0.0.0-20241215155358-4a5509556b9e // indirect
 	golang.org/x/sys v0.28.0 // indirect
-	golang.org/x/text v0.21.0 // indirect
 )
 
 replace github.com/imroc/req/v3 => /repo
